@@ -177,6 +177,7 @@ class World:
         self.seen_ncp_done = 0
         self.outage = {"h2n": 0, "n2h": 0}
         self.outage_left = params.get("outages", 1)
+        self.late_dup_left = 1
         self.can_cancel = params.get("host", "bellows") == "bellows" and params.get("cancel", True)
         for _ in range(params.get("host_burst", 0)):
             self._submit_host()
@@ -242,6 +243,9 @@ class World:
                 continue
             for f in ("drop", "corrupt", "dup"):
                 out.append((("dlv", line, f), 1))
+            if self.p.get("late_dup") and self.late_dup_left > 0:
+                # the duplicate copy is delayed: it arrives after the frames that are in flight behind it right now
+                out.append((("dlv", line, "dup-late"), 1))
             if self.outage_left > 0:
                 out.append((("dlv", line, "outage4"), 1))   # this frame and the next three in this direction are lost
         if self.host.unresolved() and self.host.timer_armed() and first != ("T", "host"):
@@ -272,6 +276,10 @@ class World:
             frame = line[0]
             if fault != "dup":
                 line.pop(0)
+            if fault == "dup-late":
+                self.late_dup_left -= 1
+                self.stats["dups"] += 1
+                self._late_copy = (label[1], frame)
             if fault == "outage4":
                 self.outage[label[1]] = 3
                 self.outage_left -= 1
@@ -304,6 +312,10 @@ class World:
             self.stats["cancels"] += 1
             self.host.cancel(label[1])
         self._collect()
+        if getattr(self, "_late_copy", None):
+            ln, fr = self._late_copy
+            self._late_copy = None
+            (self.h2n if ln == "h2n" else self.n2h).append(fr)   # behind everything, including the reaction to the first copy
         self._check()
 
     # -- oracle ---------------------------------------------------------------------------------------
@@ -428,12 +440,16 @@ def param_list(tier, host="bellows"):
             out.append({"window": w, "n_host": 3, "n_ncp": 3, "host": host})
             out.append({"window": w, "n_host": 3, "n_ncp": 3, "host_burst": 3, "ncp_burst": 3, "host": host})
         out.append({"window": 2, "n_host": 2, "n_ncp": 2, "host_burst": 2, "ncp_burst": 2, "host": host, "nak_bad": False})
+        out.append({"window": 1, "n_host": 3, "n_ncp": 2, "host": host, "late_dup": True, "cancel": False})
+        out.append({"window": 3, "n_host": 3, "n_ncp": 3, "host_burst": 3, "ncp_burst": 3, "host": host, "late_dup": True, "cancel": False})
         return out
     for w in (1, 2, 3):
         out.append({"window": w, "n_host": 3, "n_ncp": 3, "host": host})
         out.append({"window": w, "n_host": 3, "n_ncp": 3, "host_burst": 3, "ncp_burst": 3, "host": host})
         out.append({"window": w, "n_host": 2, "n_ncp": 4, "host_burst": 1, "ncp_burst": 4, "host": host})
         out.append({"window": w, "n_host": 3, "n_ncp": 3, "host_burst": 2, "ncp_burst": 2, "host": host, "nak_bad": False})
+        out.append({"window": w, "n_host": 3, "n_ncp": 3, "host": host, "late_dup": True})
+        out.append({"window": w, "n_host": 3, "n_ncp": 3, "host_burst": 3, "ncp_burst": 3, "host": host, "late_dup": True})
     return out
 
 
@@ -447,7 +463,8 @@ def main(tier: str) -> int:
     rep = report.Report("C01", tier, "model_checking")
     k = 2 if tier == "quick" else 3
     # self-validation of the environment (reference endpoint x reference endpoint)
-    sv = explore.dbdfs(("mc.checks.c01", "build"), param_list(tier, "ref")[:2] + wrap_list("quick", "ref")[:1], 2 if tier == "quick" else 2, budget_s=120)
+    sv_params = param_list("quick", "ref")
+    sv = explore.dbdfs(("mc.checks.c01", "build"), sv_params[:2] + sv_params[-2:] + wrap_list("quick", "ref")[:1], 2, budget_s=180)
     if sv.violations:
         raise explore.InternalError(f"reference endpoint fails its own oracle: {sv.violations[0][0]} choices={sv.violations[0][2]}")
     st = explore.dbdfs(("mc.checks.c01", "build"), param_list(tier), k, budget_s=(70 if tier == "quick" else 2400))
